@@ -804,6 +804,9 @@ func (b *Builder) planReplace() stepPlan {
 	// add voter + remove voter OR add learner + remove learner.
 	for _, i := range b.toAdd.IDs() {
 		add := b.toAdd[i]
+		if b.isStoreOccupied(add) {
+			continue
+		}
 		for _, j := range b.toRemove.IDs() {
 			remove := b.toRemove[j]
 			if core.IsLearner(remove) == core.IsLearner(add) {
@@ -815,7 +818,7 @@ func (b *Builder) planReplace() stepPlan {
 	for _, i := range b.toPromote.IDs() {
 		promote := b.toPromote[i]
 		for _, j := range b.toAdd.IDs() {
-			if add := b.toAdd[j]; core.IsLearner(add) {
+			if add := b.toAdd[j]; core.IsLearner(add) && !b.isStoreOccupied(add) {
 				for _, k := range b.toRemove.IDs() {
 					if remove := b.toRemove[k]; !core.IsLearner(remove) && j != k {
 						best = b.planReplaceLeaders(best, stepPlan{promote: promote, add: add, remove: remove})
@@ -830,7 +833,7 @@ func (b *Builder) planReplace() stepPlan {
 		for _, j := range b.toRemove.IDs() {
 			if remove := b.toRemove[j]; core.IsLearner(remove) {
 				for _, k := range b.toAdd.IDs() {
-					if add := b.toAdd[k]; !core.IsLearner(add) && j != k {
+					if add := b.toAdd[k]; !core.IsLearner(add) && j != k && !b.isStoreOccupied(add) {
 						best = b.planReplaceLeaders(best, stepPlan{demote: demote, add: add, remove: remove})
 					}
 				}
@@ -838,6 +841,14 @@ func (b *Builder) planReplace() stepPlan {
 		}
 	}
 	return best
+}
+
+// isStoreOccupied reports whether the store of a peer to add still holds a peer of the region.
+// Without joint consensus a voter is turned into a learner in place by removing the old peer and
+// adding a new one on the same store: the new peer can only be added after the old one is gone.
+func (b *Builder) isStoreOccupied(add *metapb.Peer) bool {
+	_, ok := b.currentPeers[add.GetStoreId()]
+	return ok
 }
 
 func (b *Builder) planReplaceLeaders(best, next stepPlan) stepPlan {
@@ -914,6 +925,9 @@ func (b *Builder) planAddPeer() stepPlan {
 	var best stepPlan
 	for _, i := range b.toAdd.IDs() {
 		a := b.toAdd[i]
+		if b.isStoreOccupied(a) {
+			continue
+		}
 		for _, leader := range b.currentPeers.IDs() {
 			if b.allowLeader(b.currentPeers[leader], false) {
 				best = b.comparePlan(best, stepPlan{add: a, leaderBeforeAdd: leader})
